@@ -417,6 +417,10 @@ func (a *AggregatePlan) batch(ctx *ExecuteCtx) ([][]Column, error) {
 	for count < PlanBatchSize {
 		aggrRow := a.aggrRows[a.pos]
 		a.pos++
+		if ctx != nil {
+			// Field results cached for the previous group must not be reused for this one
+			clear(ctx.FieldCaches)
+		}
 		row := make([]Column, len(a.aggrFields))
 		for i, col := range aggrRow {
 			if col.IsKey {
@@ -485,6 +489,10 @@ func (a *AggregatePlan) next(ctx *ExecuteCtx) ([]Column, error) {
 	}
 	aggrRow := a.aggrRows[a.pos]
 	a.pos++
+	if ctx != nil {
+		// Field results cached for the previous group must not be reused for this one
+		clear(ctx.FieldCaches)
+	}
 	row := make([]Column, len(a.aggrFields))
 	for i, col := range aggrRow {
 		if col.IsKey {
